@@ -2,6 +2,7 @@ import Proofs.C03.Codec
 import Proofs.C03.BatchThm
 import Proofs.C03.Toy
 import Proofs.E2E.C03
+import Proofs.C03.Secp
 /-!
 # C03 — BIP340 Schnorr: sign, verify and batch-verify agree with the BIP
 
@@ -12,9 +13,11 @@ x-coordinate identifying `±P`, y-parity flipping under negation, `lift_x`), eve
 `prm.TH`, every byte size, every message of any length, every key, every aux.  The abstract hypothesis `L` is
 discharged in the end-to-end section below by C01's `lawful_ec : Lawful (opsSub K) _` (NOT `Lawful (EC.ops c)`,
 which is uninhabited): T1 is then about the executed `Btc.EC.ops C` outright, T2–T4 about `Btc.EC.ops C` under the
-one named assumption of cofactor one (`hcof`; for secp256k1 `Btc.E2E.SecpCofactorOne`).
-The tags and `int_from_bits` are the translated source (`Gen.Schnorr`).  Retry loops carry explicit
-fuel: "sign returns `ok`" is a hypothesis, never a conclusion.
+named hypothesis of cofactor one (`hcof`, generic `…_cofactor_one` forms) — which for secp256k1 is PROVED
+(`Btc.E2E.secpCofactorOne`), so every `…_secp256k1` theorem below is hypothesis-free.
+The tags, `int_from_bits` and the batch coefficient statement `rand = …` are the translated source (`Gen.Schnorr`).
+Retry loops carry explicit fuel; WHEN `sign_` answers is `sign_total` / `sign_refusals` (the two hash-dependent
+refusals: no nonce candidate in range within the budget, zero challenge).
 -/
 namespace Props.C03
 open Btc Btc.Schnorr
@@ -62,6 +65,51 @@ theorem verify_refuses (L : Lawful o G) (prm : Params) (msg : Bytes) (xQ : Int) 
     · omega
     · omega
     · rw [h] at hQ; cases hQ
+
+/-- T2, group-level reading (the counterpart of C02's `Grp.SEC1`): `verify_` answers true exactly when `r` is a field
+    element, `s` is below the order, `r` and `x_Q` lift to (even-y) points `R`, `P`, the challenge `e` is not zero
+    (btclib's extra refusal) and **BIP340's equation `s•G = R + e•P` holds in the group**. -/
+theorem verify_iff_bip340_equation (L : Lawful o G) (prm : Params) (msg : Bytes) (xQ : Int) (sg : Sig) :
+    verify o prm msg xQ sg = true ↔
+      0 ≤ sg.r ∧ sg.r < o.p ∧ 0 ≤ sg.s ∧ sg.s < o.n ∧
+      ∃ R P : α, o.liftX sg.r = some R ∧ o.liftX xQ = some P ∧
+        challengeInt o prm msg xQ sg.r ≠ 0 ∧
+        sg.s • L.abs o.gen = L.abs R + challengeInt o prm msg xQ sg.r • L.abs P :=
+  Btc.Schnorr.verify_iff_equation L prm msg xQ sg
+
+/-- the retry loop shared by the nonce and the sign-to-contract tweak (`while True: t = tagged_hash(tag, t); …`)
+    answers `v` iff `v` is the FIRST of its candidates `int_from_bits(TH^{i+1}(t))`, `i < fuel`, that lies in
+    `1..n-1`; it refuses (budget exhausted; Python: the loop does not end) iff none of them does. -/
+theorem nonce_loop_answers_iff (prm : Params) (tag : Bytes) (fuel : Nat) (t : Bytes) :
+    (∀ v, hashToScalar o prm tag fuel t = .ok v ↔
+      ∃ i, i < fuel ∧ candidate prm tag i t = v ∧ 0 < v ∧ v < o.n ∧
+        ∀ j, j < i → ¬ (0 < candidate prm tag j t ∧ candidate prm tag j t < o.n)) ∧
+    (∀ e, hashToScalar o prm tag fuel t = .error e ↔
+      e = .fuel ∧ ∀ i, i < fuel → ¬ (0 < candidate prm tag i t ∧ candidate prm tag i t < o.n)) :=
+  ⟨hashToScalar_ok_iff prm tag fuel t, hashToScalar_error_iff prm tag fuel t⟩
+
+/-- **sign totality**: for EVERY key in `1..n-1`, every message, every aux of the hash's size: if the nonce loop
+    answers (`hk`: one of its first `fuel` candidates is in `1..n-1`, see `nonce_loop_answers_iff`) and the challenge
+    is not `0 mod n` (`hc`), `sign_` answers — with `r = x(k₀•G)`, `s = k + e·d mod n` (`k`, `d` the even-y
+    normalisations).  Both hypotheses are about the hash alone; `Sig.assert_valid` at the end of `_sign_` never fires. -/
+theorem sign_total (L : Lawful o G) (prm : Params) (fuel : Nat) (msg : Bytes) (q : Int) (aux : Bytes)
+    (hq : 0 < q ∧ q < o.n) (haux : aux.length = prm.hfLen) (k0 : Int)
+    (hk : nonceRaw o prm fuel msg (evenScalar o q) (o.x (o.mul q o.gen)) aux = .ok k0)
+    (hc : challengeInt o prm msg (o.x (o.mul q o.gen)) (o.x (o.mul k0 o.gen)) ≠ 0) :
+    sign o prm fuel msg q aux = .ok ⟨o.x (o.mul k0 o.gen),
+      (evenScalar o k0 + challengeInt o prm msg (o.x (o.mul q o.gen)) (o.x (o.mul k0 o.gen)) * evenScalar o q)
+        % o.n⟩ :=
+  Btc.Schnorr.sign_total L prm fuel msg q aux hq haux k0 hk hc
+
+/-- … and the refusal branches, exactly: for a key in `1..n-1` and an aux of the right size `sign_` refuses ONLY with
+    `fuel` (the nonce loop found no candidate) or `runtime` (`challenge_`: zero challenge) — never a ValueError. -/
+theorem sign_refusals (L : Lawful o G) (prm : Params) (fuel : Nat) (msg : Bytes) (q : Int) (aux : Bytes)
+    (hq : 0 < q ∧ q < o.n) (haux : aux.length = prm.hfLen) (e : Err) :
+    sign o prm fuel msg q aux = .error e ↔
+      (e = .fuel ∧ nonceRaw o prm fuel msg (evenScalar o q) (o.x (o.mul q o.gen)) aux = .error .fuel) ∨
+      (e = .runtime ∧ ∃ k0, nonceRaw o prm fuel msg (evenScalar o q) (o.x (o.mul q o.gen)) aux = .ok k0 ∧
+        challengeInt o prm msg (o.x (o.mul q o.gen)) (o.x (o.mul k0 o.gen)) = 0) :=
+  Btc.Schnorr.sign_error_iff L prm fuel msg q aux hq haux e
 
 /-- T6 `gen_keys`: the returned private key is in `1..n-1`, its point has even y and the returned
     x-coordinate, and that x-only key lifts back to exactly this point. -/
@@ -208,17 +256,17 @@ theorem batch_one_bad_fails (L : Lawful o G) (prm : Params) (coef : Nat → Int)
       ((batchVerify_eq_true_iff prm coef _).1 hb)
     intro hdvd
     rcases hcoef with rfl | ⟨h0, hn⟩
-    · have h1 : o.n ∣ 1 := by simpa [coefAt] using hdvd
+    · have h1 : o.n ∣ 1 := by simpa [coefAt_eq] using hdvd
       have hp := L.n_prime
       have : o.n = 1 := Int.eq_one_of_dvd_one (le_of_lt L.n_pos) h1
       rw [this] at hp; exact absurd hp (by decide)
     · have hj0 : j ≠ 0 ∨ j = 0 := by omega
       rcases hj0 with hj0 | hj0
-      · have : o.n ∣ coef j := by simpa [coefAt, hj0] using hdvd
+      · have : o.n ∣ coef j := by simpa [coefAt_eq, hj0] using hdvd
         have := Int.le_of_dvd h0 this
         omega
       · subst hj0
-        have h1 : o.n ∣ 1 := by simpa [coefAt] using hdvd
+        have h1 : o.n ∣ 1 := by simpa [coefAt_eq] using hdvd
         have hp := L.n_prime
         have : o.n = 1 := Int.eq_one_of_dvd_one (le_of_lt L.n_pos) h1
         rw [this] at hp; exact absurd hp (by decide)
@@ -238,6 +286,52 @@ theorem batch_at_most_one_coeff (L : Lawful o G) (prm : Params) (coef coef' : Na
   Btc.Schnorr.batch_at_most_one_coeff L prm coef coef' it0 it1 rest j bad hj1 hj hbad hagree
     ((batchVerify_eq_true_iff prm coef _).1 h1) ((batchVerify_eq_true_iff prm coef' _).1 h2)
 
+/-- the coefficient statement of `assert_batch_as_valid_`, TRANSLATED from the source
+    (`rand = 1 if i == 0 else 1 + secrets.randbelow(ec.n - 1)` → `Gen.Schnorr.batch_rand`, `batch_randbelow_bound`):
+    member 0 gets `1`; for a member `i ≥ 1` every outcome `draw ∈ 0..bound-1` of `secrets.randbelow(bound)` gives a
+    coefficient in `1..n-1`, and every value of `1..n-1` is reached by exactly that draw; the model's `coefAt` IS this
+    statement.  An edit of the statement in ssa.py (other bound, dropped `1 +`, other first member) breaks this. -/
+theorem coefficient_derivation (n : Int) (coef : Nat → Int) (i : Nat) :
+    Gen.Schnorr.batch_rand 0 (coef 0 - 1) = 1 ∧
+    (∀ draw : Int, 1 ≤ i → 0 ≤ draw → draw < Gen.Schnorr.batch_randbelow_bound n →
+      0 < Gen.Schnorr.batch_rand i draw ∧ Gen.Schnorr.batch_rand i draw < n) ∧
+    (∀ a : Int, 1 ≤ i → 0 < a → a < n →
+      0 ≤ a - 1 ∧ a - 1 < Gen.Schnorr.batch_randbelow_bound n ∧ Gen.Schnorr.batch_rand i (a - 1) = a) ∧
+    coefAt coef i = Gen.Schnorr.batch_rand i (coef i - 1) ∧
+    coefAt coef i = (if i = 0 then 1 else coef i) := by
+  refine ⟨by simp [Gen.Schnorr.batch_rand], ?_, ?_, rfl, coefAt_eq coef i⟩
+  · intro draw hi h0 hb
+    have h' : ¬ ((i : Int) = 0) := by omega
+    simp only [Gen.Schnorr.batch_rand, Gen.Schnorr.batch_randbelow_bound, if_neg h'] at hb ⊢
+    omega
+  · intro a hi h0 hn
+    have h' : ¬ ((i : Int) = 0) := by omega
+    simp only [Gen.Schnorr.batch_rand, Gen.Schnorr.batch_randbelow_bound, if_neg h']
+    omega
+
+/-- **"true exactly when every member verifies", deterministic part**: for coefficients as the code draws them
+    (`Drawn`: each in `1..n-1`), ANY size ≥ 1, any order, any repetition of valid members — if AT MOST ONE position
+    holds a failing member, the batch verdict IS the conjunction of the single verdicts, for every draw. -/
+theorem batch_eq_all_of_at_most_one_bad (L : Lawful o G) (prm : Params) (coef : Nat → Int) (hd : Drawn o coef)
+    (items : List Item) (hne : items ≠ [])
+    (hone : ∀ (j k : Nat) (a b : Item), items[j]? = some a → items[k]? = some b →
+      verify o prm a.msg a.xQ a.sg = false → verify o prm b.msg b.xQ b.sg = false → j = k) :
+    batchVerify o prm coef items = true ↔ ∀ it ∈ items, verify o prm it.msg it.xQ it.sg = true :=
+  Btc.Schnorr.batch_eq_all_of_at_most_one_bad L prm coef hd items hne hone
+
+/-- **… and the probabilistic part, stated as a count**: with a failing member at a position `j ≥ 1` and ANYTHING else
+    in the batch (other failing members, duplicates), at most ONE of the `n − 1` values `1..n-1` the code can draw for
+    `aⱼ` makes the batch pass, whatever the other coefficients: two passing values are equal.  So the converse of
+    completeness fails with probability ≤ 1/(n−1) over that single draw; it is NOT a deterministic statement (a batch
+    with two failing members does pass for one `aⱼ`: the toy streams count them). -/
+theorem batch_passing_coefficient_unique (L : Lawful o G) (prm : Params) (coef : Nat → Int) (it0 it1 : Item)
+    (rest : List Item) (j : Nat) (bad : Item) (hj1 : 1 ≤ j) (hj : (it0 :: it1 :: rest)[j]? = some bad)
+    (hbad : verify o prm bad.msg bad.xQ bad.sg = false) (a a' : Int)
+    (ha : 0 < a ∧ a < o.n) (ha' : 0 < a' ∧ a' < o.n)
+    (h1 : batchVerify o prm (Function.update coef j a) (it0 :: it1 :: rest) = true)
+    (h2 : batchVerify o prm (Function.update coef j a') (it0 :: it1 :: rest) = true) : a = a' :=
+  Btc.Schnorr.batch_passing_coefficient_unique L prm coef it0 it1 rest j bad hj1 hj hbad a a' ha ha' h1 h2
+
 /-! ## non-vacuity: the hypotheses are met by a concrete group, and by concrete values on it -/
 
 /-- `Lawful` is inhabited (cyclic group of order 7 with an x-only structure) -/
@@ -252,6 +346,22 @@ example : verifyOpt Toy.ops Toy.prm 5 [1] 2 ⟨1, 4⟩ (some []) (some 6) = .ok 
 example : serialize Toy.ops Toy.prm ⟨1, 4⟩ = .ok [1, 4] := by decide
 example : batchVerify Toy.ops Toy.prm (fun _ => 5) [⟨[1, 2], 2, ⟨1, 4⟩⟩, ⟨[], 2, ⟨1, 4⟩⟩] = true := by decide
 example : batchVerify Toy.ops Toy.prm (fun _ => 5) [⟨[1, 2], 2, ⟨1, 4⟩⟩, ⟨[], 2, ⟨1, 5⟩⟩] = false := by decide
+-- `sign_total`: its hash hypotheses are met (nonce candidate 6 in range, challenge non-zero), and it then names the signature
+example : nonceRaw Toy.ops Toy.prm 5 [1, 2] (evenScalar Toy.ops 3) (Toy.ops.x (Toy.ops.mul 3 Toy.ops.gen)) [0] = .ok 6 := by
+  decide
+example : challengeInt Toy.ops Toy.prm [1, 2] (Toy.ops.x (Toy.ops.mul 3 Toy.ops.gen)) (Toy.ops.x (Toy.ops.mul 6 Toy.ops.gen)) ≠ 0 := by
+  decide
+example : sign Toy.ops Toy.prm 0 [1, 2] 3 [0] = .error .fuel := by decide
+-- `verify_iff_bip340_equation`: the accepted signature satisfies the equation `4•G = R + e•P` in `ZMod 7`
+example : ∃ R P : ZMod 7, Toy.ops.liftX 1 = some R ∧ Toy.ops.liftX 2 = some P ∧
+    (4 : Int) • Toy.lawful.abs Toy.ops.gen = Toy.lawful.abs R + challengeInt Toy.ops Toy.prm [1, 2] 2 1 • Toy.lawful.abs P := by
+  obtain ⟨_, _, _, _, R, P, hR, hP, _, h⟩ :=
+    (verify_iff_bip340_equation Toy.lawful Toy.prm [1, 2] 2 ⟨1, 4⟩).1 (by decide)
+  exact ⟨R, P, hR, hP, h⟩
+-- `Drawn`: a coefficient function the code can draw; the batch theorems apply to it
+example : Drawn Toy.ops (fun _ => 5) := (drawn_iff _).2 (fun _ _ => by decide)
+example : batchVerify Toy.ops Toy.prm (Function.update (fun _ => 5) 1 3) [⟨[1, 2], 2, ⟨1, 4⟩⟩, ⟨[], 2, ⟨1, 5⟩⟩] = false := by
+  decide
 /-- the tags the theorems are about are BIP340's -/
 example : Gen.Schnorr.TAG_AUX.map (fun b => Char.ofNat b.toNat) = "BIP0340/aux".toList ∧
     Gen.Schnorr.TAG_NONCE.map (fun b => Char.ofNat b.toNat) = "BIP0340/nonce".toList ∧
@@ -271,12 +381,13 @@ never executed.  Every theorem below is therefore stated about the raw `Btc.EC.o
   verify and batch over `opsSub K` ARE the runs over `Btc.EC.ops C`, refusal classes included (`verify_sub_eq_cofactor_one`,
   `batch_sub_eq_cofactor_one`).  Without it only `verify_sub_imp_ec` holds, and on a curve with a cofactor T2 is false of `lift_x`.
 For secp256k1 (generated constants): primality of `p` and `n` is PROVED (Pratt certificates, `secp256k1_p_prime`,
-`secp256k1_n_prime`), `Δ ≠ 0` is proved, the rest of `CurveOk` is computed by the kernel; **`hcof` is the one remaining
-assumption about the curve** (Mathlib has no point count / Hasse bound) spelled `Btc.E2E.SecpCofactorOne`, the first explicit
-argument of every `_secp256k1_cofactor_one` theorem (T1, the codec and the size facts need none). -/
+`secp256k1_n_prime`), `Δ ≠ 0` is proved, the rest of `CurveOk` is computed by the kernel, and **cofactor one is PROVED**
+(`Btc.E2E.secpCofactorOne`, Proofs/E2E/CofactorOne.lean: `#E ≤ 2p+1 < 3n`, `n ∣ #E`, no 2-torsion): every `…_secp256k1`
+theorem below is about the executed `Btc.EC.ops secp256k1` with NO hypothesis about the curve left. -/
 namespace Props.C03
 open WeierstrassCurve
 open Btc Btc.EC Btc.C01 Btc.E2E Btc.Schnorr
+open Btc.Schnorr.Secp (secpPoint)
 
 /-- T1 on btclib's arithmetic, any curve (no cofactor hypothesis) -/
 theorem sign_verifies_ec {p : ℕ} [Fact p.Prime] {C : Curve} (K : CurveOk p C) (h34 : p % 4 = 3) (prm : Params)
@@ -359,7 +470,63 @@ theorem batch_at_most_one_coeff_cofactor_one {p : ℕ} [Fact p.Prime] {C : Curve
     C.n ∣ coef j - coef' j :=
   Btc.E2E.batch_at_most_one_coeff_cofactor_one K (liftAgree_of_cofactor_one K h34 hcof hΔ) h34 prm coef coef' it0 it1 rest j bad hj1 hj hbad hagree h1 h2
 
-/-! ### secp256k1 (generated constants): primality proved, `Δ ≠ 0` proved; `hcof` the one named assumption -/
+/-- T2, group-level reading, about the executed `verify (Btc.EC.ops C)` (cofactor one): BIP340's equation
+    `s•G = R + e•P` in the group of points of the curve (Mathlib's `WeierstrassCurve.Affine.Point` over `ZMod p`;
+    `absA` sends an integer pair to the point it denotes, `y = 0` to the point at infinity) -/
+theorem verify_iff_bip340_equation_cofactor_one {p : ℕ} [Fact p.Prime] {C : Curve} (K : CurveOk p C) (h34 : p % 4 = 3)
+    (hcof : ∀ g : Pt p C.toCurveGroup, C.n • g = 0) (hΔ : (curveOf p C.toCurveGroup).toAffine.Δ ≠ 0)
+    (prm : Params) (msg : Bytes) (xQ : ℤ) (sg : Sig) :
+    verify (EC.ops C) prm msg xQ sg = true ↔
+      0 ≤ sg.r ∧ sg.r < C.p ∧ 0 ≤ sg.s ∧ sg.s < C.n ∧
+      ∃ R P : Point, (EC.ops C).liftX sg.r = some R ∧ (EC.ops C).liftX xQ = some P ∧
+        challengeInt (EC.ops C) prm msg xQ sg.r ≠ 0 ∧
+        sg.s • absA p C.toCurveGroup C.G =
+          absA p C.toCurveGroup R + challengeInt (EC.ops C) prm msg xQ sg.r • absA p C.toCurveGroup P :=
+  Btc.E2E.verify_iff_equation_cofactor_one K (liftAgree_of_cofactor_one K h34 hcof hΔ) h34 prm msg xQ sg
+
+/-- sign totality about the executed `sign (Btc.EC.ops C)` (no cofactor hypothesis): the closed form of the run for
+    a key in `1..n-1` and an aux of the hash's size — it answers unless the nonce loop exhausts its budget or the
+    challenge is `0 mod n` -/
+theorem sign_total_ec {p : ℕ} [Fact p.Prime] {C : Curve} (K : CurveOk p C) (h34 : p % 4 = 3) (prm : Params)
+    (fuel : ℕ) (msg : Bytes) (q : ℤ) (aux : Bytes) (hq : 0 < q ∧ q < C.n) (haux : aux.length = prm.hfLen) :
+    sign (EC.ops C) prm fuel msg q aux =
+      match nonceRaw (EC.ops C) prm fuel msg (evenScalar (EC.ops C) q) ((EC.ops C).x ((EC.ops C).mul q C.G)) aux with
+      | .error e => .error e
+      | .ok k0 =>
+        if challengeInt (EC.ops C) prm msg ((EC.ops C).x ((EC.ops C).mul q C.G)) ((EC.ops C).x ((EC.ops C).mul k0 C.G)) = 0
+        then .error .runtime
+        else .ok ⟨(EC.ops C).x ((EC.ops C).mul k0 C.G),
+          (evenScalar (EC.ops C) k0 + challengeInt (EC.ops C) prm msg ((EC.ops C).x ((EC.ops C).mul q C.G))
+            ((EC.ops C).x ((EC.ops C).mul k0 C.G)) * evenScalar (EC.ops C) q) % C.n⟩ :=
+  Btc.E2E.sign_eq_ec K h34 prm fuel msg q aux hq haux
+
+/-- at most one failing member ⇒ the executed batch verdict is the conjunction of the executed single verdicts
+    (cofactor one; coefficients as the code draws them) -/
+theorem batch_eq_all_of_at_most_one_bad_cofactor_one {p : ℕ} [Fact p.Prime] {C : Curve} (K : CurveOk p C)
+    (h34 : p % 4 = 3) (hcof : ∀ g : Pt p C.toCurveGroup, C.n • g = 0)
+    (hΔ : (curveOf p C.toCurveGroup).toAffine.Δ ≠ 0) (prm : Params) (coef : ℕ → ℤ)
+    (hd : Drawn (EC.ops C) coef) (items : List Item) (hne : items ≠ [])
+    (hone : ∀ (j k : ℕ) (a b : Item), items[j]? = some a → items[k]? = some b →
+      verify (EC.ops C) prm a.msg a.xQ a.sg = false → verify (EC.ops C) prm b.msg b.xQ b.sg = false → j = k) :
+    batchVerify (EC.ops C) prm coef items = true ↔ ∀ it ∈ items, verify (EC.ops C) prm it.msg it.xQ it.sg = true :=
+  Btc.E2E.batch_eq_all_of_at_most_one_bad_cofactor_one K (liftAgree_of_cofactor_one K h34 hcof hΔ) h34 prm coef hd items
+    hne hone
+
+/-- a failing member `j ≥ 1`: at most one value `1..n-1` of `aⱼ` lets the executed batch pass (cofactor one) -/
+theorem batch_passing_coefficient_unique_cofactor_one {p : ℕ} [Fact p.Prime] {C : Curve} (K : CurveOk p C)
+    (h34 : p % 4 = 3) (hcof : ∀ g : Pt p C.toCurveGroup, C.n • g = 0)
+    (hΔ : (curveOf p C.toCurveGroup).toAffine.Δ ≠ 0) (prm : Params) (coef : ℕ → ℤ)
+    (it0 it1 : Item) (rest : List Item) (j : ℕ) (bad : Item) (hj1 : 1 ≤ j)
+    (hj : (it0 :: it1 :: rest)[j]? = some bad)
+    (hbad : verify (EC.ops C) prm bad.msg bad.xQ bad.sg = false) (a a' : ℤ)
+    (ha : 0 < a ∧ a < C.n) (ha' : 0 < a' ∧ a' < C.n)
+    (h1 : batchVerify (EC.ops C) prm (Function.update coef j a) (it0 :: it1 :: rest) = true)
+    (h2 : batchVerify (EC.ops C) prm (Function.update coef j a') (it0 :: it1 :: rest) = true) : a = a' :=
+  Btc.E2E.batch_passing_coefficient_unique_cofactor_one K (liftAgree_of_cofactor_one K h34 hcof hΔ) h34 prm coef it0 it1
+    rest j bad hj1 hj hbad a a' ha ha' h1 h2
+
+/-! ### secp256k1 (generated constants): primality, `Δ ≠ 0` AND cofactor one proved — no hypothesis left -/
+
 
 /-- T1 on secp256k1, unconditional -/
 theorem sign_verifies_secp256k1 (prm : Params)
@@ -368,8 +535,8 @@ theorem sign_verifies_secp256k1 (prm : Params)
     verify (EC.ops secp256k1) prm msg ((EC.ops secp256k1).x ((EC.ops secp256k1).mul q secp256k1.G)) sg = true :=
   Btc.E2E.sign_verifies_secp256k1 prm fuel msg q aux sg h
 
-/-- T2 about `verify (Btc.EC.ops secp256k1)`, under `hcof` -/
-theorem verify_iff_secp256k1_cofactor_one (hcof : SecpCofactorOne) (prm : Params)
+/-- T2 about the executed `verify (Btc.EC.ops secp256k1)` — no hypothesis -/
+theorem verify_iff_secp256k1 (prm : Params)
     (msg : Bytes) (xQ : ℤ) (sg : Sig) :
     verify (EC.ops secp256k1) prm msg xQ sg = true ↔
       0 ≤ sg.r ∧ sg.r < secp256k1.p ∧ 0 ≤ sg.s ∧ sg.s < secp256k1.n ∧
@@ -381,18 +548,18 @@ theorem verify_iff_secp256k1_cofactor_one (hcof : SecpCofactorOne) (prm : Params
           ((EC.ops secp256k1).mul (challengeInt (EC.ops secp256k1) prm msg xQ sg.r) Q)) = true ∧
         (EC.ops secp256k1).x ((EC.ops secp256k1).sub ((EC.ops secp256k1).mul sg.s secp256k1.G)
           ((EC.ops secp256k1).mul (challengeInt (EC.ops secp256k1) prm msg xQ sg.r) Q)) = sg.r :=
-  @Btc.E2E.verify_iff_cofactor_one secp256k1_p ⟨secp256k1_p_prime⟩ secp256k1 secpOk (secp_liftAgree03 hcof) secp256k1_h34 prm msg xQ sg
+  @Btc.E2E.verify_iff_cofactor_one secp256k1_p ⟨secp256k1_p_prime⟩ secp256k1 secpOk Secp.liftAgree secp256k1_h34 prm msg xQ sg
 
-/-- T3 about `batchVerify (Btc.EC.ops secp256k1)`, under `hcof` -/
-theorem batch_complete_secp256k1_cofactor_one (hcof : SecpCofactorOne) (prm : Params)
+/-- T3 about the executed `batchVerify (Btc.EC.ops secp256k1)` — no hypothesis -/
+theorem batch_complete_secp256k1 (prm : Params)
     (coef : ℕ → ℤ) (items : List Item) (hne : items ≠ [])
     (hall : ∀ it ∈ items, verify (EC.ops secp256k1) prm it.msg it.xQ it.sg = true) :
     batchVerify (EC.ops secp256k1) prm coef items = true :=
-  @Btc.E2E.batch_complete_cofactor_one secp256k1_p ⟨secp256k1_p_prime⟩ secp256k1 secpOk (secp_liftAgree03 hcof) secp256k1_h34 prm coef
+  @Btc.E2E.batch_complete_cofactor_one secp256k1_p ⟨secp256k1_p_prime⟩ secp256k1 secpOk Secp.liftAgree secp256k1_h34 prm coef
     items hne hall
 
-/-- T4 (one bad member) about `batchVerify (Btc.EC.ops secp256k1)`, under `hcof` -/
-theorem batch_one_bad_fails_secp256k1_cofactor_one (hcof : SecpCofactorOne) (prm : Params)
+/-- T4 (one bad member) about the executed `batchVerify (Btc.EC.ops secp256k1)` — no hypothesis -/
+theorem batch_one_bad_fails_secp256k1 (prm : Params)
     (coef : ℕ → ℤ) (it0 it1 : Item) (rest : List Item) (j : ℕ) (bad : Item)
     (hj : (it0 :: it1 :: rest)[j]? = some bad)
     (hbad : verify (EC.ops secp256k1) prm bad.msg bad.xQ bad.sg = false)
@@ -400,11 +567,11 @@ theorem batch_one_bad_fails_secp256k1_cofactor_one (hcof : SecpCofactorOne) (prm
       verify (EC.ops secp256k1) prm it'.msg it'.xQ it'.sg = true)
     (hcoef : ¬ secp256k1.n ∣ coefAt coef j) :
     batchVerify (EC.ops secp256k1) prm coef (it0 :: it1 :: rest) = false :=
-  @Btc.E2E.batch_one_bad_fails_cofactor_one secp256k1_p ⟨secp256k1_p_prime⟩ secp256k1 secpOk (secp_liftAgree03 hcof) secp256k1_h34 prm
+  @Btc.E2E.batch_one_bad_fails_cofactor_one secp256k1_p ⟨secp256k1_p_prime⟩ secp256k1 secpOk Secp.liftAgree secp256k1_h34 prm
     coef it0 it1 rest j bad hj hbad hothers hcoef
 
-/-- T4 (any number of bad members) about `batchVerify (Btc.EC.ops secp256k1)`, under `hcof` -/
-theorem batch_at_most_one_coeff_secp256k1_cofactor_one (hcof : SecpCofactorOne) (prm : Params)
+/-- T4 (any number of bad members) about the executed `batchVerify (Btc.EC.ops secp256k1)` — no hypothesis -/
+theorem batch_at_most_one_coeff_secp256k1 (prm : Params)
     (coef coef' : ℕ → ℤ) (it0 it1 : Item) (rest : List Item) (j : ℕ) (bad : Item) (hj1 : 1 ≤ j)
     (hj : (it0 :: it1 :: rest)[j]? = some bad)
     (hbad : verify (EC.ops secp256k1) prm bad.msg bad.xQ bad.sg = false)
@@ -412,8 +579,65 @@ theorem batch_at_most_one_coeff_secp256k1_cofactor_one (hcof : SecpCofactorOne) 
     (h1 : batchVerify (EC.ops secp256k1) prm coef (it0 :: it1 :: rest) = true)
     (h2 : batchVerify (EC.ops secp256k1) prm coef' (it0 :: it1 :: rest) = true) :
     secp256k1.n ∣ coef j - coef' j :=
-  @Btc.E2E.batch_at_most_one_coeff_cofactor_one secp256k1_p ⟨secp256k1_p_prime⟩ secp256k1 secpOk (secp_liftAgree03 hcof) secp256k1_h34
+  @Btc.E2E.batch_at_most_one_coeff_cofactor_one secp256k1_p ⟨secp256k1_p_prime⟩ secp256k1 secpOk Secp.liftAgree secp256k1_h34
     prm coef coef' it0 it1 rest j bad hj1 hj hbad hagree h1 h2
+
+/-- T2, group-level reading, about the executed `verify (Btc.EC.ops secp256k1)` — no hypothesis: BIP340's equation
+    `s•G = R + e•P` in the group of points of secp256k1 (`secpPoint`: the point of Mathlib's `E(F_p)` an integer pair
+    denotes), `R = lift_x(r)`, `P = lift_x(x_Q)` -/
+theorem verify_iff_bip340_equation_secp256k1 (prm : Params) (msg : Bytes) (xQ : ℤ) (sg : Sig) :
+    verify (EC.ops secp256k1) prm msg xQ sg = true ↔
+      0 ≤ sg.r ∧ sg.r < secp256k1.p ∧ 0 ≤ sg.s ∧ sg.s < secp256k1.n ∧
+      ∃ R P : Point, (EC.ops secp256k1).liftX sg.r = some R ∧ (EC.ops secp256k1).liftX xQ = some P ∧
+        challengeInt (EC.ops secp256k1) prm msg xQ sg.r ≠ 0 ∧
+        sg.s • secpPoint secp256k1.G =
+          secpPoint R + challengeInt (EC.ops secp256k1) prm msg xQ sg.r • secpPoint P :=
+  Btc.Schnorr.Secp.verify_iff_equation prm msg xQ sg
+
+/-- **sign totality on secp256k1** — no hypothesis about the curve: every key in `1..n-1`, every message, every aux
+    of the hash's size: `sign_` answers with `(x(k₀•G), k + e·d mod n)` unless the nonce loop finds no candidate in
+    `1..n-1` within its budget (`.error .fuel`) or the challenge is `0 mod n` (`.error .runtime`) — both events are
+    properties of the hash function alone -/
+theorem sign_total_secp256k1 (prm : Params) (fuel : ℕ) (msg : Bytes) (q : ℤ) (aux : Bytes)
+    (hq : 0 < q ∧ q < secp256k1.n) (haux : aux.length = prm.hfLen) :
+    sign (EC.ops secp256k1) prm fuel msg q aux =
+      match nonceRaw (EC.ops secp256k1) prm fuel msg (evenScalar (EC.ops secp256k1) q)
+          ((EC.ops secp256k1).x ((EC.ops secp256k1).mul q secp256k1.G)) aux with
+      | .error e => .error e
+      | .ok k0 =>
+        if challengeInt (EC.ops secp256k1) prm msg ((EC.ops secp256k1).x ((EC.ops secp256k1).mul q secp256k1.G))
+            ((EC.ops secp256k1).x ((EC.ops secp256k1).mul k0 secp256k1.G)) = 0
+        then .error .runtime
+        else .ok ⟨(EC.ops secp256k1).x ((EC.ops secp256k1).mul k0 secp256k1.G),
+          (evenScalar (EC.ops secp256k1) k0 + challengeInt (EC.ops secp256k1) prm msg
+            ((EC.ops secp256k1).x ((EC.ops secp256k1).mul q secp256k1.G))
+            ((EC.ops secp256k1).x ((EC.ops secp256k1).mul k0 secp256k1.G)) * evenScalar (EC.ops secp256k1) q)
+            % secp256k1.n⟩ :=
+  @Btc.E2E.sign_eq_ec secp256k1_p ⟨secp256k1_p_prime⟩ secp256k1 secpOk secp256k1_h34 prm fuel msg q aux hq haux
+
+/-- at most one failing member ⇒ `batchVerify (Btc.EC.ops secp256k1)` IS the conjunction of the single verdicts, for
+    every draw of the coefficients, size, order, repetition — no hypothesis -/
+theorem batch_eq_all_of_at_most_one_bad_secp256k1 (prm : Params) (coef : ℕ → ℤ)
+    (hd : Drawn (EC.ops secp256k1) coef) (items : List Item) (hne : items ≠ [])
+    (hone : ∀ (j k : ℕ) (a b : Item), items[j]? = some a → items[k]? = some b →
+      verify (EC.ops secp256k1) prm a.msg a.xQ a.sg = false → verify (EC.ops secp256k1) prm b.msg b.xQ b.sg = false →
+      j = k) :
+    batchVerify (EC.ops secp256k1) prm coef items = true ↔
+      ∀ it ∈ items, verify (EC.ops secp256k1) prm it.msg it.xQ it.sg = true :=
+  @Btc.E2E.batch_eq_all_of_at_most_one_bad_cofactor_one secp256k1_p ⟨secp256k1_p_prime⟩ secp256k1 secpOk Secp.liftAgree
+    secp256k1_h34 prm coef hd items hne hone
+
+/-- a failing member `j ≥ 1`: at most one of the `n − 1` values of `aⱼ` lets `batchVerify (Btc.EC.ops secp256k1)` pass
+    — no hypothesis -/
+theorem batch_passing_coefficient_unique_secp256k1 (prm : Params) (coef : ℕ → ℤ)
+    (it0 it1 : Item) (rest : List Item) (j : ℕ) (bad : Item) (hj1 : 1 ≤ j)
+    (hj : (it0 :: it1 :: rest)[j]? = some bad)
+    (hbad : verify (EC.ops secp256k1) prm bad.msg bad.xQ bad.sg = false) (a a' : ℤ)
+    (ha : 0 < a ∧ a < secp256k1.n) (ha' : 0 < a' ∧ a' < secp256k1.n)
+    (h1 : batchVerify (EC.ops secp256k1) prm (Function.update coef j a) (it0 :: it1 :: rest) = true)
+    (h2 : batchVerify (EC.ops secp256k1) prm (Function.update coef j a') (it0 :: it1 :: rest) = true) : a = a' :=
+  @Btc.E2E.batch_passing_coefficient_unique_cofactor_one secp256k1_p ⟨secp256k1_p_prime⟩ secp256k1 secpOk Secp.liftAgree
+    secp256k1_h34 prm coef it0 it1 rest j bad hj1 hj hbad a a' ha ha' h1 h2
 
 /-- the sizes the DRIVER computes for secp256k1 (`Params.ofCurve`: from the bit lengths of `p` and `n`, as btclib's
     `p_size`, `n_size`, `nlen`) are the generated sizes `Sig.parse` reads -/
@@ -456,7 +680,20 @@ example : verify (EC.ops secp256k1) runPrm [1, 2]
   sign_verifies_secp256k1 runPrm 4 [1, 2] 3 (List.replicate 32 7) _ secp256k1_run
 example : sign (EC.ops toyC) toyPrm 5 [1, 2] 3 [0] = .ok ⟨2, 19⟩ := toy_schnorr_sign1
 example : verify (EC.ops toyC) toyPrm [1, 2] 35 ⟨2, 19⟩ = true := toy_schnorr_verifies
+-- the `_cofactor_one` forms fully discharged on the toy curve (`hcof` PROVED there): T3, T4, T2 about the raw `Btc.EC.ops toyC`
 example (coef : ℕ → ℤ) :
-    batchVerify (opsSub toyOk) toyPrm coef [⟨[1, 2], 35, ⟨2, 19⟩⟩, ⟨[9], 21, ⟨29, 5⟩⟩] = true := toy_batch coef
+    batchVerify (EC.ops toyC) toyPrm coef [⟨[1, 2], 35, ⟨2, 19⟩⟩, ⟨[9], 21, ⟨29, 5⟩⟩] = true := toy_batch_raw coef
+example (coef : ℕ → ℤ) (h : 0 < coef 1 ∧ coef 1 < 31) :
+    batchVerify (EC.ops toyC) toyPrm coef [⟨[1, 2], 35, ⟨2, 19⟩⟩, ⟨[9], 21, ⟨29, 6⟩⟩] = false := toy_batch_bad_raw coef h
+-- the equation on the toy curve, in Mathlib's point group, read off `verify_iff_bip340_equation_cofactor_one`
+example : ∃ R P : Point, (EC.ops toyC).liftX 2 = some R ∧ (EC.ops toyC).liftX 35 = some P ∧
+    (19 : ℤ) • absA 43 toyC.toCurveGroup toyC.G =
+      absA 43 toyC.toCurveGroup R + challengeInt (EC.ops toyC) toyPrm [1, 2] 35 2 • absA 43 toyC.toCurveGroup P := by
+  obtain ⟨_, _, _, _, R, P, hR, hP, _, h⟩ :=
+    (verify_iff_bip340_equation_cofactor_one toyOk (by decide) Btc.C01.Toy.toy_hcof Btc.C01.Toy.toy_delta toyPrm [1, 2] 35
+      ⟨2, 19⟩).1 toy_schnorr_verifies
+  exact ⟨R, P, hR, hP, h⟩
+-- `sign_total_secp256k1` applies to the run above: key 3 in range, aux of the hash's size
+example : (0 : ℤ) < 3 ∧ (3 : ℤ) < secp256k1.n ∧ (List.replicate 32 (7 : UInt8)).length = runPrm.hfLen := by decide +kernel
 
 end Props.C03
